@@ -128,4 +128,78 @@ theorem decodeHybrid_encodeRuns (w n : Nat) (rs : List Run) (tail : List Nat)
   have := decodeHybridAux_runs w rs hwf _ n tail [] hf (by simpa using hn)
   simpa using this
 
+
+/-- the framing check accepts every stream a conforming encoder can produce: all runs consumed are
+    complete, whatever follows the stream -/
+theorem hybridCompleteAux_runs (w : Nat) (rs : List Run) (hwf : ∀ r ∈ rs, r.wf w = true) :
+    ∀ (fuel n : Nat) (tail : List Nat) (got : Nat), rs.length < fuel →
+      n ≤ got + (rs.flatMap Run.values).length →
+      hybridCompleteAux w fuel n (encodeRuns w rs ++ tail) got = true := by
+  induction rs with
+  | nil =>
+    intro fuel n tail got hf hn
+    obtain ⟨f, rfl⟩ : ∃ f, fuel = f + 1 := ⟨fuel - 1, by omega⟩
+    have hn' : got ≥ n := by simpa using hn
+    simp [hybridCompleteAux, hn']
+  | cons r rs ih =>
+    intro fuel n tail got hf hn
+    obtain ⟨f, rfl⟩ : ∃ f, fuel = f + 1 := ⟨fuel - 1, by omega⟩
+    have hf' : rs.length < f := by simpa using hf
+    have hwf' : ∀ r ∈ rs, r.wf w = true := fun r hr => hwf r (List.mem_cons_of_mem _ hr)
+    unfold hybridCompleteAux
+    by_cases hacc : got ≥ n
+    · simp only [hacc, if_true]
+    · simp only [hacc, if_false]
+      rw [encodeRuns_cons, List.append_assoc]
+      cases r with
+      | rle c v =>
+        have hv := Run.wf_rle (hwf _ (List.mem_cons_self))
+        obtain ⟨h1, _, h3⟩ := rle_step w c v hv (encodeRuns w rs ++ tail)
+        simp only [h1]
+        have hc : c * 2 % 2 = 0 := by omega
+        have hc2 : c * 2 / 2 = c := by omega
+        simp only [hc, if_true, h3, hc2]
+        have hl : (w + 7) / 8 ≤ (leBytes ((w + 7) / 8) v ++ (encodeRuns w rs ++ tail)).length := by
+          rw [List.length_append, leBytes_length]; omega
+        simp only [hl, decide_true, Bool.true_and]
+        apply ih hwf' f n tail (got + c) hf'
+        simp only [List.flatMap_cons, Run.values, List.length_append, List.length_replicate] at hn ⊢
+        omega
+      | bp vs =>
+        obtain ⟨h8, hv⟩ := Run.wf_bp (hwf _ (List.mem_cons_self))
+        obtain ⟨h1, _, h3⟩ := bp_step w vs h8 hv (encodeRuns w rs ++ tail)
+        simp only [h1]
+        have hc : (vs.length / 8 * 2 + 1) % 2 ≠ 0 := by omega
+        have hc2 : (vs.length / 8 * 2 + 1) / 2 = vs.length / 8 := by omega
+        simp only [hc, if_false, hc2, h3]
+        have hlen : (packLE w vs).length = (vs.length / 8) * w := by
+          rw [packLE_length]
+          have h1 : vs.length = 8 * (vs.length / 8) := by omega
+          generalize vs.length / 8 = g at *
+          rw [h1]
+          have : 8 * g * w + 7 = 8 * (g * w) + 7 := by ring
+          rw [this]; omega
+        have hl : vs.length / 8 * w ≤ (packLE w vs ++ (encodeRuns w rs ++ tail)).length := by
+          rw [List.length_append, hlen]; omega
+        simp only [hl, decide_true, Bool.true_and]
+        apply ih hwf' f n tail (got + vs.length / 8 * 8) hf'
+        simp only [List.flatMap_cons, Run.values, List.length_append] at hn ⊢
+        omega
+
+/-- **no false alarm from the framing check**: any stream of well-formed runs holding at least `n`
+    values is accepted by `hybridTight`, whatever bytes follow it. -/
+theorem hybridTight_encodeRuns (w n : Nat) (rs : List Run) (tail : List Nat)
+    (hwf : ∀ r ∈ rs, r.wf w = true) (hn : n ≤ (rs.flatMap Run.values).length) :
+    hybridTight w n (encodeRuns w rs ++ tail) = true := by
+  unfold hybridTight
+  have hf : rs.length < (encodeRuns w rs ++ tail).length + 1 := by
+    have := encodeRuns_length_ge w rs
+    simp only [List.length_append]; omega
+  exact hybridCompleteAux_runs w rs hwf _ n tail 0 hf (by simpa using hn)
+
+/-- …and it does reject a run whose announced payload is cut: a bit-packed run of one group of
+    8-bit values with 7 bytes behind the header -/
+example : hybridTight 8 7 [3, 0, 1, 2, 0, 1, 2, 0] = false := by decide
+example : hybridTight 8 7 [3, 0, 1, 2, 0, 1, 2, 0, 0] = true := by decide
+
 end PqV.Spec
